@@ -77,6 +77,11 @@ func (c *exprCtx) tr(e ast.Expr) string {
 		if o, ok := ops[x.Op]; ok {
 			return fmt.Sprintf("(EBin %s %s %s)", o, c.tr(x.X), c.tr(x.Y))
 		}
+		if x.Op == token.AND { // x & (2^k - 1) is x mod 2^k for every integer x
+			if m, ok := intLit(x.Y); ok && m > 0 && (m&(m+1)) == 0 {
+				return fmt.Sprintf("(EBin OMod %s (EInt %d))", c.tr(x.X), m+1)
+			}
+		}
 	case *ast.CallExpr:
 		// int64(len(x)) ; int64(e) ; len(x) ; uint(e) for shift counts
 		if id, ok := x.Fun.(*ast.Ident); ok && len(x.Args) == 1 {
@@ -96,6 +101,9 @@ func (c *exprCtx) tr(e ast.Expr) string {
 			case "len":
 				if a, ok := x.Args[0].(*ast.Ident); ok {
 					return fmt.Sprintf("(ELen %q)", a.Name)
+				}
+				if exprString(x.Args[0]) == "call.Arguments" {
+					return "(ELen \"call.Arguments\")"
 				}
 			}
 		}
